@@ -1604,14 +1604,24 @@ func (x *FnExec) sliceOp(fr *frame, n *node, in *ssa.Slice) error {
 // ---------------------------------------------------------------------------
 
 func (x *FnExec) storeGuards(fr *frame, n *node, in *ssa.Store, a *Addr, v Val) {
-	if a.Root != rootField || a.Idx == "whole" || len(a.Path) > 0 {
+	if a.Root != rootField || a.Idx == "whole" {
 		return
+	}
+	matchHeap := a.Heap
+	if len(a.Path) > 0 {
+		// a field of a struct nested by value (node.Spec.Flavor): the guard names the innermost struct type and field
+		// ("NodeSpec.Flavor"); `target` is the enclosing object the path starts from
+		last := a.Path[len(a.Path)-1]
+		if last.Index != "" || last.Struct == nil {
+			return
+		}
+		matchHeap, _, _ = x.fieldHeap(last.Struct, last.Field)
 	}
 	for _, g := range x.eng.specs.Guards {
 		if g.Kind != "store" {
 			continue
 		}
-		if !x.eng.guardMatchesField(g, a.Heap) {
+		if !x.eng.guardMatchesField(g, matchHeap) {
 			continue
 		}
 		if g.In != "" && !strings.HasSuffix(funcKey(x.top), "."+g.In) && !strings.HasSuffix(funcKey(fr.fn), "."+g.In) {
